@@ -15,7 +15,7 @@ and the extracted executable reachability (specification) on the same script.
 import os, json, re, time
 import vlib
 
-REGK = 'SRBALTEUYZ'
+REGK = 'SRBALTEUYZWF'
 F1_SIG = 'mark-recursion-depth'
 MAX_CHAIN_REGULAR = 20000
 
@@ -30,6 +30,7 @@ class Sim:
         self.rng, self.n, self.toks = rng, {}, []
         self.stack, self.tls, self.owned, self.dead = set(), {}, set(), set()
         self.nid = 0
+        self.qcfg, self.fin_done = {}, set()      # finaliser probes: F id -> (late id, kind, place)
         self.ids = []
         self._reach = None
 
@@ -40,7 +41,8 @@ class Sim:
 
     def ptrs(self, i):
         nd = self.n[i]
-        if nd['k'] in 'SsRrB': return [x for x in nd['f'] if x]
+        if nd['k'] in 'SsRrBW': return [x for x in nd['f'] if x]
+        if nd['k'] == 'F': return []
         if nd['k'] in 'TEYZ': return list(nd['kv'].values())
         return list(nd['items'])
 
@@ -135,7 +137,7 @@ class Sim:
     def new(self, k, root=False):
         self.nid += 1
         i = self.nid
-        self.n[i] = {'k': k, 'root': root and k in REGK, 'f': [0, 0] if k in 'Ss' else [0], 'items': [], 'kv': {}}
+        self.n[i] = {'k': k, 'root': root and k in REGK, 'f': [0, 0] if k in 'SsW' else [0], 'items': [], 'kv': {}}
         self.stack.add(i); self.ids.append(i)
         self.emit('N%d%s%s' % (i, k, '!' if self.n[i]['root'] else ''))
         self.grew(None, i)
@@ -210,19 +212,61 @@ class Sim:
 
     def collect(self, narrow=False):
         # three kinds of forced collection: full stack scan, narrowed scan, exact stack pass
-        self.emit(self.rng.choice('HE') if narrow else self.rng.choice('GGE'))
+        ch = self.rng.choice('HE') if narrow else self.rng.choice('GGE')
+        self.emit(ch)
+        if ch == 'E': self.finalise()
+
+    def exact(self):
+        self.emit('E'); return self.finalise()
+
+    def finconfig(self, f, kind, place):
+        """what the finaliser of F node f does: allocate node lid of kind S/W, publish it into place =
+        ('K',) stack slot | ('T', slot) TLS entry | ('P', holder, field)"""
+        self.nid += 1
+        lid = self.nid
+        self.qcfg[f] = (lid, kind, place)
+        ps = {'K': 'K', 'T': 'T%d' % place[1] if place[0] == 'T' else '', 'P': 'P%d.%d' % (place[1], place[2]) if place[0] == 'P' else ''}[place[0]]
+        self.emit('Q%d=%d%s,%s' % (f, lid, kind, ps))
+        return lid
+
+    def pending_finalisers(self):
+        """F nodes that a collection could finalise now"""
+        r = self.reach()
+        return [f for f in self.n if self.n[f]['k'] == 'F' and f not in self.dead and f not in self.fin_done
+                and f not in r and not self.n[f]['root']]
+
+    def finalise(self):
+        """an exact collection (E) frees every unreachable F node; its finaliser allocates and publishes.
+        returns False when a publication target no longer exists"""
+        ok = True
+        for f in sorted(self.pending_finalisers()):
+            self.fin_done.add(f); self.dead.add(f)
+            if f not in self.qcfg: continue
+            lid, kind, place = self.qcfg[f]
+            if lid in self.n: ok = False; continue
+            self.n[lid] = {'k': kind, 'root': False, 'f': [0, 0], 'items': [], 'kv': {}}
+            self.ids.append(lid)
+            if place[0] == 'K': self.stack.add(lid)
+            elif place[0] == 'T': self.tls[place[1]] = lid
+            else:
+                h = place[1]
+                if h in self.n and h not in self.dead and self.usable(h): self.n[h]['f'][place[2]] = lid
+                else: ok = False
+            self.dirty()
+        return ok
+
     def burst(self, n): self.emit('M%d' % n)
 
     def link2(self, holder, t):
         """deterministic variant of link (field 0)"""
         k = self.n[holder]['k']
-        if k in 'SsRr': self.store(holder, 0, t)
+        if k in 'SsRrW': self.store(holder, 0, t)
         else: self.insert(holder, t, key=(t if k in 'YZ' else 7))
 
     def link(self, holder, t):
         """make holder point to t by whatever its kind offers"""
         k = self.n[holder]['k']
-        if k in 'Ss': self.store(holder, self.rng.randrange(2), t)
+        if k in 'SsW': self.store(holder, self.rng.randrange(2), t)
         elif k in 'Rr': self.store(holder, 0, t)
         elif k == 'B':
             return False
@@ -273,8 +317,8 @@ def unroot(s, r):
 def gen_random(rng, maxnodes, maxops):
     s = Sim(rng)
     nops = rng.randrange(8, maxops)
-    kinds = 'SSRRBALTEYZUU' + ('sru' if rng.random() < .4 else '')
-    HOLD = 'SRALTEYZUsru'
+    kinds = 'SSRRBALTEYZUU' + ('sru' if rng.random() < .4 else '') + ('W' if maxnodes <= 200 else '')
+    HOLD = 'SRWALTEYZUsru'
     pc = min(.08, 40.0 / nops)           # about 40 forced collections per script at most
     pb = min(.05, 25.0 / nops)
     for _ in range(nops):
@@ -503,8 +547,60 @@ def gen_case(rng, size):
     return '@ ' + c if rng.random() < .2 else c
 
 
+def gen_finaliser(rng):
+    """garbage objects whose FINALISER allocates a managed object while the sweep is running and publishes it into a
+    live place (stack slot, TLS entry, field of a live object, possibly root-flagged); the late object — small, or the
+    padded probe W that malloc serves from a fresh mapping outside the address window of everything registered so far —
+    must survive every later collection while the place holds it"""
+    s = Sim(rng)
+    live = []
+    for _ in range(rng.randrange(1, 5)):
+        h = s.new(rng.choice('SSRW'), root=rng.random() < .25)
+        if live and rng.random() < .5: s.link(h, rng.choice(live))
+        live.append(h)
+    if rng.random() < .4: s.burst(rng.choice([5, 40]))
+    used, fs = set(), []
+    for _ in range(rng.randrange(1, 4)):
+        f = s.new('F')
+        pk = rng.choice('KKTP')
+        if pk == 'K': place = ('K',)
+        elif pk == 'T':
+            slot = rng.choice([x for x in range(1, 9) if ('T', x) not in used]); place = ('T', slot)
+        else:
+            h = rng.choice(live); i = rng.randrange(len(s.n[h]['f']))
+            if ('P', h, i) in used: place = ('K',)
+            else: place = ('P', h, i)
+        used.add(place)
+        lid = s.finconfig(f, rng.choice('SWW'), place)
+        via = None
+        if rng.random() < .5:                      # the F node hangs off another object instead of a stack slot
+            via = s.new(rng.choice('RSALU')); s.link(via, f); s.drop(f)
+        fs.append((f, via, lid, place))
+    s.collect()
+    for f, via, lid, place in fs:
+        # the F node becomes garbage immediately before an exact collection: its finaliser runs inside that sweep
+        if via is None: s.drop(f)
+        else: s.drop(via)
+        s.exact()
+        if rng.random() < .5: s.collect(narrow=rng.random() < .5)
+    s.burst(rng.choice([3, 30, 100])); s.collect(); s.exact(); s.collect(narrow=True)
+    # some of the late objects get out-pointers and company
+    for f, via, lid, place in fs:
+        if rng.random() < .5 and s.usable(lid):
+            x = s.new(rng.choice('SR')); s.store(lid, rng.randrange(2), x); s.drop(x)
+    s.collect(); s.exact()
+    # unpublish: the late objects become garbage
+    for f, via, lid, place in fs:
+        if place[0] == 'K': s.drop(lid)
+        elif place[0] == 'T': s.tls_rem(place[1])
+        else: s.store(place[1], place[2], 0)
+    s.exact(); s.collect()
+    return s.script()
+
+
 def gen_case1(rng, size):
     r = rng.random()
+    if r < .08: return gen_finaliser(rng)
     if r < .50: return gen_random(rng, size, max(12, size * 3))
     if r < .62: return gen_chain(rng, rng.choice([1, 2, 5, 20, 100, min(size * 2, 400)]))
     if r < .72: return gen_tuple_dag(rng, rng.randrange(2, 14), rng.choice([1, 2, 2, 3]))
@@ -530,14 +626,32 @@ def valid_script(case):
             c, rest = tok[0], tok[1:]
             v = [int(x) for x in re.findall(r'\d+', rest)]
             if c == '@': continue
+            if c in 'NCGHM' and s.pending_finalisers(): return False      # only an exact collection may finalise an F node
+            if c == 'Q':
+                m = re.match(r'(\d+)=(\d+)([SW]),(K|T\d+|P\d+\.\d+)$', rest)
+                if not m: return False
+                f, lid = int(m.group(1)), int(m.group(2))
+                if f not in s.n or s.n[f]['k'] != 'F' or f in s.qcfg or not s.usable(f): return False
+                if lid in s.n or any(lid == q[0] for q in s.qcfg.values()): return False
+                pl = m.group(4)
+                if pl == 'K': place = ('K',)
+                elif pl[0] == 'T': place = ('T', int(pl[1:]))
+                else:
+                    h, i = [int(x) for x in pl[1:].split('.')]
+                    if h not in s.n or s.n[h]['k'] not in 'SRW' or i >= len(s.n[h]['f']): return False
+                    place = ('P', h, i)
+                s.qcfg[f] = (lid, m.group(3), place)
+                s.nid = max(s.nid, lid)
+                continue
             if c == 'N':
-                if not owned_ok() or v[0] in s.n: return False
+                if not owned_ok() or v[0] in s.n or any(v[0] == q[0] for q in s.qcfg.values()): return False
                 k = re.search(r'[A-Za-z]', rest).group(0)
                 s.nid = v[0] - 1
                 s.new(k, root=rest.endswith('!'))
             elif c == 'C':
                 i, src = v
                 if not owned_ok() or i in s.n or not s.usable(src) or s.n[src]['k'] not in 'SRALTEYZU': return False
+                if any(i == q[0] for q in s.qcfg.values()): return False
                 if any(t in s.owned or not s.usable(t) for t in s.ptrs(src)): return False
                 s.nid = i - 1
                 s.copy(src)
@@ -582,6 +696,7 @@ def valid_script(case):
                 s.delete(i)
             elif c in 'GHEM':
                 if not owned_ok(): return False
+                if c == 'E' and not s.finalise(): return False
             else: return False
     except (KeyError, IndexError, ValueError, AttributeError):
         return False
@@ -614,7 +729,7 @@ def parse1(line):
             for kv in f[1:]:
                 if '=' not in kv: continue
                 k, v = kv.split('=', 1)
-                if k in ('t', 'x', 'h') or (v and not v[0].isdigit()): o[k] = v
+                if k in ('t', 'x', 'h', 'hs', 'w') or (v and not v[0].isdigit()): o[k] = v
                 else: o[k] = set(int(x) for x in v.split(',') if x)
             out.append(o)
         else:
@@ -674,6 +789,12 @@ def corr(case, impl, model):
     for n, (a, b) in enumerate(zip(pi, pm)):
         if a['op'] not in ('G', 'H', 'E', 'M'):
             return 'implementation: %s at observation %d' % (a['op'], n)
+        if a.get('w') == '0':
+            return ('observation %d: implementation (white-box): an alive registered object lies outside [gc->minptr, gc->maxptr] — '
+                    'the window invariant range_ok of the theorems does not hold after this sweep' % n)
+        if b.get('hs') and b['hs'] != '1111':
+            return ('observation %d: model: hypotheses (wf, raw_wf, range_ok, order_ok) evaluate to %s after the sweep and the '
+                    'allocations issued by finalisers' % (n, b['hs']))
         if a['op'] in 'GHE':
             hy = b.get('h')
             if hy and hy != '1111':
@@ -733,6 +854,9 @@ def classify(case, impl, why):
 
 
 CORPUS = [
+    'N1S N2F Q2=3W,K K-2 E E G H M30 K-3 E',             # seed C01-r2-2: object allocated by a finaliser, outside the window
+    'N1S N2F Q2=3S,P1.1 K-2 E E G',
+    '@ N1R! N2F Q2=3W,T4 K-2 E K-1 E G T-4 E',
     'N1S T+1=1 K-1 G G',                                   # D16: reachable from TLS only
     '@ N1S T+1=1 K-1 G G N2U I2,0=2 H M30 G',              # the same in a second thread (+ D17 witness)
     'N1R N2S P1.0=2 K-2 T+3=1 K-1 M40 G H',                # D16 through a Ref, threshold collections
